@@ -621,6 +621,23 @@ func verifNewConv(rnd *verifutil.Rand, target string, srcs []*verifSrc, spare bo
 		if spare {
 			c.variant = "LayerConvertFuncWithCompressionLevel"
 			c.fn = zstdconvert.LayerConvertFuncWithCompressionLevel(lv, shape(common)...)
+		} else if len(srcs) == 1 && rnd.Bool() {
+			// the variants that keep ONE option variable for all calls: only where the instance
+			// converts one layer at a time (table rows, retries); concurrently see verifFindings
+			switch rnd.Intn(3) {
+			case 0:
+				c.variant = "LayerConvertFuncWithCompressionLevel"
+				c.fn = zstdconvert.LayerConvertFuncWithCompressionLevel(lv, shape(common)...)
+			case 1:
+				c.variant = "LayerConvertFunc"
+				c.fn = zstdconvert.LayerConvertFunc(shape(common)...)
+			default:
+				c.variant = "LayerConvertWithLayerOptsFunc"
+				perLayer[srcs[0].desc.Digest] = shape(common)
+				layerMin[srcs[0].desc.Digest] = commonMin
+				c.minChunk = func(d digest.Digest) int { return layerMin[d] }
+				c.fn = zstdconvert.LayerConvertWithLayerOptsFunc(perLayer)
+			}
 		} else {
 			// the per-layer variant makes a fresh closure per call; layers without an entry get none
 			c.variant = "LayerConvertWithLayerOptsFuncWithCompressionLevel"
